@@ -452,9 +452,6 @@ func c05RunPipes(c c05Case) (out c05Out) {
 	}
 	post := c05Snap()
 	out.key, out.msg = c05CheckCounts(accepted, atomic.LoadInt64(&stats.BytesUp), atomic.LoadInt64(&stats.BytesDown), pre, post)
-	if out.key == "" && post.psCompleted-pre.psCompleted != 1 {
-		out.key, out.msg = "stats:completed-sessions", fmt.Sprintf("completedSessions grew by %d for one tunnel", post.psCompleted-pre.psCompleted)
-	}
 	return
 }
 
@@ -658,7 +655,7 @@ func TestVerif_C05_single(t *testing.T) {
 
 // Pairs of faults: sampled in the quick tier, exhaustive in the thorough tier.
 func TestVerif_C05_pairs(t *testing.T) {
-	rec := vh.NewRec("C05", "pairs", "pairs of the single faults of sub-check 'single' injected into the same base script (both on one connection, on both connections, same or different directions); thorough tier: every unordered pair x {alternating, alternating with down 2 calls ahead} (exhaustive), quick tier: rapid-sampled pairs x drawn schedule; base end: both peers silent; non-trivial and distinct as in 'single'")
+	rec := vh.NewRec("C05", "pairs", "pairs of the single faults of sub-check 'single' injected into the same base script (both on one connection, on both connections, same or different directions); thorough tier: every unordered pair x the 6 schedules of 'single' (exhaustive), quick tier: rapid-sampled pairs x drawn schedule; base end: both peers silent; non-trivial and distinct as in 'single'")
 	defer rec.Flush()
 	rec.Require("read:data+eof", "write:short", "write:err+partial", "setdl:nth", "close:err", "stopped-by-close:at-write")
 	c05QuietStats(t)
@@ -676,7 +673,7 @@ func TestVerif_C05_pairs(t *testing.T) {
 	if vh.Thorough() {
 		rec.SetExhaustive(true)
 		idx := 0
-		for _, sc := range []string{"", "11"} {
+		for _, sc := range c05Scheds {
 			for i := 0; i < len(fs); i++ {
 				for j := i + 1; j < len(fs); j++ {
 					idx++
